@@ -42,33 +42,40 @@ def mintBeginBlock (s : State) : State :=
 def dueIds (enc : Time → Nat → Bytes) (q : Tbl (Time × Nat) Unit) (t : Time) : List (Time × Nat) :=
   sortKeys (fun k => enc k.1 k.2) (q.keys.filter (fun k => k.1 ≤ t))
 
+/-- After an hourly payment: one hour fewer, next due one hour later (cleared when exhausted). -/
+def payoutAdvance (p : Payout) : Payout :=
+  let p := { p with hours := p.hours - 1, nextAt := p.nextAt + hour }
+  if p.hours = 0 then { p with nextAt := zeroTime } else p
+
 def payoutStep (s : State) (k : Time × Nat) : M State := do
-  let some item := s.payouts.get k.2 | gopanic "payout for next at key does not exist"
-  let s := { s with payQ := s.payQ.erase (item.nextAt, item.id) }
+  let item ← orPanic (s.payouts.get k.2) "payout for next at key does not exist"
+  let s1 := { s with payQ := s.payQ.erase (item.nextAt, item.id) }
   let reward ← GetProportionOfCoin item.price s.params.nodeShare
-  let s ← sendCoinFromDepositToModule s item.addr feeCollectorAddr reward
+  let s2 ← sendCoinFromDepositToModule s1 item.addr feeCollectorAddr reward
   let payAmt ← SInt.sub item.price.amount reward.amount
-  if payAmt < 0 then gopanic "negative coin amount"
+  requireP (decide (0 ≤ payAmt)) "negative coin amount"
   let payment : Coin := ⟨item.price.denom, payAmt⟩
-  let s ← sendCoinFromDepositToAccount s item.addr item.node payment
-  let s := emit s (ev "sentinel.subscription.v2.EventPayForPayout"
+  let s3 ← sendCoinFromDepositToAccount s2 item.addr item.node payment
+  let s4 := emit s3 (ev "sentinel.subscription.v2.EventPayForPayout"
     [("address", addrTxt .acc item.addr), ("node_address", addrTxt .node item.node), ("payment", payment.sdkString),
      ("staking_reward", reward.sdkString), ("id", toString item.id)])
-  let item := { item with hours := item.hours - 1, nextAt := item.nextAt + hour }
-  let item := if item.hours = 0 then { item with nextAt := zeroTime } else item
-  let s := { s with payouts := s.payouts.set item.id item }
-  pure (if item.hours > 0 then { s with payQ := s.payQ.set (item.nextAt, item.id) () } else s)
+  let item' := payoutAdvance item
+  let s5 := { s4 with payouts := s4.payouts.set item'.id item' }
+  pure (if item'.hours > 0 then { s5 with payQ := s5.payQ.set (item'.nextAt, item'.id) () } else s5)
+
+/-- In a hook an error returned by a keeper call is turned into a panic (`if err != nil { panic(err) }`). -/
+def panicIfErr {α} (r : M α) : M α :=
+  match r with
+  | .error (.reject m) => gopanic m
+  | r => r
 
 def subscriptionBeginBlock (s : State) : M State :=
-  (dueIds subscription.PayoutForNextAtKey s.payQ s.time).foldlM payoutStep s
+  (dueIds subscription.PayoutForNextAtKey s.payQ s.time).foldlM (fun s k => panicIfErr (payoutStep s k)) s
 
 /-- BeginBlock of the whole application as far as the hub is concerned: custommint, then the SDK's
 distribution sweep of the fee collector, then the vpn hook. -/
-def beginBlock (s : State) (t : Time) : Except String State := do
-  let s := { s with time := t, height := s.height + 1, events := [] }
-  let s := mintBeginBlock s
-  let s := distrSweep s
-  haltOf (subscriptionBeginBlock s)
+def beginBlock (s : State) (t : Time) : Except String State :=
+  haltOf (subscriptionBeginBlock (distrSweep (mintBeginBlock { s with time := t, height := s.height + 1, events := [] })))
 
 /-! ### node EndBlock (x/node/keeper/abci.go) -/
 
@@ -76,43 +83,44 @@ def beginBlock (s : State) (t : Time) : Except String State := do
 when `viol amount bound`. `Sub` then `Add` of single coins. -/
 def clampPrices (viol : Int → Int → Bool) (bounds : Coins) (prices : Coins) : Coins :=
   bounds.foldl (fun prices c =>
-    let amount := prices.amountOf c.denom
-    if viol amount c.amount then (prices.sub ⟨c.denom, amount⟩).add c else prices) prices
+    if viol (prices.amountOf c.denom) c.amount then (prices.sub ⟨c.denom, prices.amountOf c.denom⟩).add c else prices) prices
 
 def nodeOrder (s : State) : List Addr :=
   sortKeys node.ActiveNodeKey s.nodeActive.keys ++ sortKeys node.InactiveNodeKey s.nodeInactive.keys
 
+/-- The node record after the re-pricing sweep. -/
+def sweepNode (p : Params) (m : Modified) (item : Node) : Node :=
+  let gb := if m.maxGB then clampPrices (· > ·) p.maxGB item.gb else item.gb
+  let gb := if m.minGB then clampPrices (· < ·) p.minGB gb else gb
+  let hr := if m.maxHr then clampPrices (· > ·) p.maxHr item.hr else item.hr
+  let hr := if m.minHr then clampPrices (· < ·) p.minHr hr else hr
+  { item with gb, hr }
+
 def nodeSweep (s : State) : M State :=
-  let m := s.modified
-  if !(m.maxGB || m.minGB || m.maxHr || m.minHr) then pure s else
+  if !(s.modified.maxGB || s.modified.minGB || s.modified.maxHr || s.modified.minHr) then pure s else
   (nodeOrder s).foldlM (init := s) fun s a => do
-    -- the iterator yields the snapshot value of the record
-    let some item := getNode s a | gopanic "node vanished during sweep"
-    let gb := if m.maxGB then clampPrices (· > ·) s.params.maxGB item.gb else item.gb
-    let gb := if m.minGB then clampPrices (· < ·) s.params.minGB gb else gb
-    let hr := if m.maxHr then clampPrices (· > ·) s.params.maxHr item.hr else item.hr
-    let hr := if m.minHr then clampPrices (· < ·) s.params.minHr hr else hr
-    let item := { item with gb, hr }
-    let s ← setNode s item
-    pure (emit s (ev "sentinel.node.v2.EventUpdateDetails"
-      [("address", addrTxt .node item.addr), ("gigabyte_prices", txt item.gb.sdkString), ("hourly_prices", txt item.hr.sdkString),
+    let item ← orPanic (getNode s a) "node vanished during sweep"
+    let item' := sweepNode s.params s.modified item
+    let s1 ← setNode s item'
+    pure (emit s1 (ev "sentinel.node.v2.EventUpdateDetails"
+      [("address", addrTxt .node item'.addr), ("gigabyte_prices", txt item'.gb.sdkString), ("hourly_prices", txt item'.hr.sdkString),
        ("remote_url", "-")]))
 
 def dueNodes (s : State) : List (Time × Addr) :=
   sortKeys (fun k => node.NodeForInactiveAtKey k.1 k.2) (s.nodeQ.keys.filter (fun k => k.1 ≤ s.time))
 
-def nodeExpire (s : State) : M State :=
-  (dueNodes s).foldlM (init := s) fun s k => do
-    let some item := getNode s k.2 | gopanic "node for inactive at key does not exist"
-    let s := { s with nodeActive := s.nodeActive.erase item.addr }
-    let s := { s with nodeQ := s.nodeQ.erase (item.inactiveAt, item.addr) }
-    let item := { item with inactiveAt := zeroTime, status := .StatusInactive, statusAt := s.time }
-    let s ← setNode s item
-    pure (emit s (ev "sentinel.node.v2.EventUpdateStatus" [("status", Status.StatusInactive.String), ("address", addrTxt .node item.addr)]))
+def nodeExpireStep (s : State) (k : Time × Addr) : M State := do
+  let item ← orPanic (getNode s k.2) "node for inactive at key does not exist"
+  let s1 := { s with nodeActive := s.nodeActive.erase item.addr }
+  let s2 := { s1 with nodeQ := s1.nodeQ.erase (item.inactiveAt, item.addr) }
+  let s3 ← setNode s2 { item with inactiveAt := zeroTime, status := .StatusInactive, statusAt := s.time }
+  pure (emit s3 (ev "sentinel.node.v2.EventUpdateStatus" [("status", Status.StatusInactive.String), ("address", addrTxt .node item.addr)]))
+
+def nodeExpire (s : State) : M State := (dueNodes s).foldlM nodeExpireStep s
 
 def nodeEndBlock (s : State) : M State := do
-  let s ← nodeSweep s
-  nodeExpire s
+  let s1 ← nodeSweep s
+  nodeExpire s1
 
 /-! ### subscription hooks (x/subscription/keeper/hooks.go) -/
 
@@ -120,71 +128,70 @@ def subGigabytePrice (dep : Coin) (gb : Int) : M Coin := do
   let a ← SInt.quo dep.amount gb
   newCoin dep.denom a
 
+/-- (deposit, gigabytes) of a per-gigabyte node subscription. -/
+def gbInfo (sub : Sub) : Option (Coin × Int) :=
+  match sub.kind with
+  | .node _ gb _ dep => if gb ≠ 0 then some (dep, gb) else none
+  | _ => none
+
+/-- The allocation after accounting `bytes` more: clamped at the grant. -/
+def allocAfterUse (a : Alloc) (used : Int) : Alloc := { a with used := if used > a.granted then a.granted else used }
+
+/-- The payment part of `SessionInactiveHook` for a per-gigabyte node subscription. -/
+def settleSession (s : State) (x : Session) (acc node : Addr) (dep : Coin) (gb : Int) (before after : Int) : M State := do
+  let price ← subGigabytePrice dep gb
+  let previous ← AmountForBytes price.amount before
+  let current ← AmountForBytes price.amount after
+  let payAmt ← SInt.sub current previous
+  let payment ← newCoin price.denom payAmt
+  let reward ← GetProportionOfCoin payment s.params.nodeShare
+  let s1 ← sendCoinFromDepositToModule s acc feeCollectorAddr reward
+  let netAmt ← SInt.sub payment.amount reward.amount
+  requireP (decide (0 ≤ netAmt)) "negative coin amount"
+  let net : Coin := ⟨payment.denom, netAmt⟩
+  let s2 ← sendCoinFromDepositToAccount s1 acc node net
+  pure (emit s2 (ev "sentinel.subscription.v2.EventPayForSession"
+    [("address", addrTxt .acc x.addr), ("node_address", addrTxt .node x.node), ("payment", net.sdkString),
+     ("staking_reward", reward.sdkString), ("session_id", toString x.id), ("subscription_id", toString x.sub)]))
+
 /-- `SessionInactiveHook`: account the session's bytes against the allocation and, for a
 per-gigabyte node subscription, pay the node and the fee collector out of the escrow. -/
 def sessionInactiveHook (s : State) (id : Nat) (acc node : Addr) (bytes : Int) : M State := do
-  let some x := s.sessions.get id | reject "session does not exist"
-  if x.status ≠ .StatusInactivePending then reject "invalid status for session"
-  let some sub := s.subs.get x.sub | reject "subscription does not exist"
-  if isHourly sub then return s
-  let some a := s.allocs.get (sub.id, acc) | reject "subscription allocation does not exist"
-  let gbInfo : Option (Coin × Int) := match sub.kind with
-    | .node _ gb _ dep => if gb ≠ 0 then some (dep, gb) else none
-    | _ => none
-  let mut price : Coin := ⟨"", 0⟩
-  let mut previous : Int := 0
-  if let some (dep, gb) := gbInfo then
-    price ← subGigabytePrice dep gb
-    previous ← AmountForBytes price.amount a.used
-  let used ← SInt.add a.used bytes
-  let a := { a with used := if used > a.granted then a.granted else used }
-  let s := emit (setAllocation s a) (evAllocate a)
-  if gbInfo.isSome then
-    let current ← AmountForBytes price.amount a.used
-    let payAmt ← SInt.sub current previous
-    let payment ← newCoin price.denom payAmt
-    let reward ← GetProportionOfCoin payment s.params.nodeShare
-    let s ← sendCoinFromDepositToModule s acc feeCollectorAddr reward
-    let netAmt ← SInt.sub payment.amount reward.amount
-    if netAmt < 0 then gopanic "negative coin amount"
-    let net : Coin := ⟨payment.denom, netAmt⟩
-    let s ← sendCoinFromDepositToAccount s acc node net
-    return emit s (ev "sentinel.subscription.v2.EventPayForSession"
-      [("address", addrTxt .acc x.addr), ("node_address", addrTxt .node x.node), ("payment", net.sdkString),
-       ("staking_reward", reward.sdkString), ("session_id", toString x.id), ("subscription_id", toString x.sub)])
-  pure s
+  let x ← orReject (s.sessions.get id) "session does not exist"
+  require (x.status = .StatusInactivePending) "invalid status for session"
+  let sub ← orReject (s.subs.get x.sub) "subscription does not exist"
+  if isHourly sub then pure s else do
+    let a ← orReject (s.allocs.get (sub.id, acc)) "subscription allocation does not exist"
+    -- `previousAmount` is computed before the allocation is updated; it only reads `a.used`
+    let used ← SInt.add a.used bytes
+    let a' := allocAfterUse a used
+    let s1 := emit (setAllocation s a') (evAllocate a')
+    match gbInfo sub with
+    | some (dep, gb) => settleSession s1 x acc node dep gb a.used a'.used
+    | none => pure s1
 
 /-! ### session EndBlock (x/session/keeper/abci.go) -/
 
-def sessionStep (s : State) (k : Time × Nat) : M State := do
-  let some item := s.sessions.get k.2 | gopanic "session for inactive at key does not exist"
-  let s := { s with sessQ := s.sessQ.erase (item.inactiveAt, item.id) }
-  if item.status = .StatusActive then
-    let item := { item with inactiveAt := s.time + s.params.sessDelay, status := .StatusInactivePending, statusAt := s.time }
-    let s := { s with sessions := s.sessions.set item.id item }
-    let s := { s with sessQ := s.sessQ.set (item.inactiveAt, item.id) () }
-    return emit s (evSessionStatus item .StatusInactivePending)
-  let bytes ← SInt.add item.up item.down
-  let s ← match sessionInactiveHook s item.id item.addr item.node bytes with
-    | .ok s => pure s
-    | .error (.reject m) => gopanic m      -- `if err != nil { panic(err) }`
-    | .error e => .error e
+def removeSession (s : State) (item : Session) : State :=
   let s := { s with sessions := s.sessions.erase item.id }
   let s := { s with sessForAcc := s.sessForAcc.erase (item.addr, item.id) }
   let s := { s with sessForNode := s.sessForNode.erase (item.node, item.id) }
   let s := { s with sessForSub := s.sessForSub.erase (item.sub, item.id) }
   let s := { s with sessForAlloc := s.sessForAlloc.erase (item.sub, item.addr, item.id) }
-  pure (emit s (evSessionStatus item .StatusInactive))
+  emit s (evSessionStatus item .StatusInactive)
+
+def sessionStep (s : State) (k : Time × Nat) : M State := do
+  let item ← orPanic (s.sessions.get k.2) "session for inactive at key does not exist"
+  if item.status = .StatusActive then pure (sessionToPending s item) else do
+    let s1 := { s with sessQ := s.sessQ.erase (item.inactiveAt, item.id) }
+    let bytes ← Hub.Generated.Bandwidth.Sum ⟨item.up, item.down⟩
+    let s2 ← panicIfErr (sessionInactiveHook s1 item.id item.addr item.node bytes)
+    pure (removeSession s2 item)
 
 def sessionEndBlock (s : State) : M State :=
   (dueIds session.SessionForInactiveAtKey s.sessQ s.time).foldlM sessionStep s
 
 /-! ### subscription EndBlock (x/subscription/keeper/abci.go) -/
-
-def panicIfErr (r : M State) : M State :=
-  match r with
-  | .error (.reject m) => gopanic m
-  | r => r
 
 def evRefund (sub : Sub) (c : Coin) : Event :=
   ev "sentinel.subscription.v2.EventRefund" [("address", addrTxt .acc sub.addr), ("amount", c.sdkString), ("id", toString sub.id)]
@@ -192,61 +199,77 @@ def evRefund (sub : Sub) (c : Coin) : Event :=
 def allocAddrsForSub (s : State) (id : Nat) : List Addr :=
   (sortKeys (fun k => subscription.AllocationKey k.1 k.2) (s.allocs.keys.filter (·.1 = id))).map (·.2)
 
-def subscriptionStep (delay : Dur) (s : State) (k : Time × Nat) : M State := do
-  let some item := s.subs.get k.2 | gopanic "subscription for inactive at key does not exist"
-  let s := { s with subQ := s.subQ.erase (item.inactiveAt, item.id) }
-  if item.status = .StatusActive then
-    let s ← panicIfErr (subscriptionInactivePendingHook s item.id)
-    let item := { item with inactiveAt := s.time + delay, status := .StatusInactivePending, statusAt := s.time }
-    let s := { s with subs := s.subs.set item.id item }
-    let s := { s with subQ := s.subQ.set (item.inactiveAt, item.id) () }
-    let s := emit s (evSubStatus item .StatusInactivePending)
-    return ← detachPayout s item (gopanic "payout for subscription does not exist")
-  let mut s := s
-  if let .node _ gb hr dep := item.kind then
-    if gb ≠ 0 then
-      let price ← subGigabytePrice dep gb
-      let some a := s.allocs.get (item.id, item.addr) | gopanic "subscription allocation does not exist"
-      let paid ← AmountForBytes price.amount a.used
-      let refundAmt ← SInt.sub dep.amount paid
-      let refund ← newCoin dep.denom refundAmt
-      s ← panicIfErr (subtractDeposit s item.addr refund)
-      s := emit s (evRefund item refund)
-    if hr ≠ 0 then
-      let some p := s.payouts.get item.id | gopanic "payout for subscription does not exist"
-      let refundAmt ← SInt.mul p.price.amount p.hours
-      let refund ← newCoin p.price.denom refundAmt
-      s ← panicIfErr (subtractDeposit s p.addr refund)
-      s := emit s (evRefund item refund)
+/-- Refund of a removed per-gigabyte node subscription: deposit minus the price of the used bytes. -/
+def refundGB (s : State) (item : Sub) (dep : Coin) (gb : Int) : M State := do
+  let price ← subGigabytePrice dep gb
+  let a ← orPanic (s.allocs.get (item.id, item.addr)) "subscription allocation does not exist"
+  let paid ← AmountForBytes price.amount a.used
+  let refundAmt ← SInt.sub dep.amount paid
+  let refund ← newCoin dep.denom refundAmt
+  let s1 ← panicIfErr (subtractDeposit s item.addr refund)
+  pure (emit s1 (evRefund item refund))
+
+/-- Refund of a removed per-hour node subscription: hourly price times the hours not paid out. -/
+def refundHr (s : State) (item : Sub) : M State := do
+  let p ← orPanic (s.payouts.get item.id) "payout for subscription does not exist"
+  let refundAmt ← SInt.mul p.price.amount p.hours
+  let refund ← newCoin p.price.denom refundAmt
+  let s1 ← panicIfErr (subtractDeposit s p.addr refund)
+  pure (emit s1 (evRefund item refund))
+
+def refundSub (s : State) (item : Sub) : M State :=
   match item.kind with
-  | .node node _ _ _ =>
-    s := { s with subForNode := s.subForNode.erase (node, item.id) }
-    s := { s with allocs := s.allocs.erase (item.id, item.addr) }
-    s := { s with subForAcc := s.subForAcc.erase (item.addr, item.id) }
-  | .plan planId _ =>
-    s := { s with subForPlan := s.subForPlan.erase (planId, item.id) }
-    for a in allocAddrsForSub s item.id do
-      s := { s with allocs := s.allocs.erase (item.id, a) }
-      s := { s with subForAcc := s.subForAcc.erase (a, item.id) }
-  s := { s with subs := s.subs.erase item.id }
-  s := emit s (evSubStatus item .StatusInactive)
-  if isHourly item then
-    let some p := s.payouts.get item.id | gopanic "payout for subscription does not exist"
-    s := { s with payouts := s.payouts.erase p.id }
-    s := { s with payForAcc := s.payForAcc.erase (p.addr, p.id) }
-    s := { s with payForNode := s.payForNode.erase (p.node, p.id) }
-  pure s
+  | .node _ gb hr dep => do
+    let s1 ← (if gb ≠ 0 then refundGB s item dep gb else pure s)
+    if hr ≠ 0 then refundHr s1 item else pure s1
+  | .plan _ _ => pure s
+
+/-- Delete the subscription record with its allocations and index entries. -/
+def removeSubRecords (s : State) (item : Sub) : State :=
+  let s := match item.kind with
+    | .node node _ _ _ =>
+      let s := { s with subForNode := s.subForNode.erase (node, item.id) }
+      let s := { s with allocs := s.allocs.erase (item.id, item.addr) }
+      { s with subForAcc := s.subForAcc.erase (item.addr, item.id) }
+    | .plan planId _ =>
+      let s := { s with subForPlan := s.subForPlan.erase (planId, item.id) }
+      (allocAddrsForSub s item.id).foldl (fun s a =>
+        let s := { s with allocs := s.allocs.erase (item.id, a) }
+        { s with subForAcc := s.subForAcc.erase (a, item.id) }) s
+  let s := { s with subs := s.subs.erase item.id }
+  emit s (evSubStatus item .StatusInactive)
+
+def removePayout (s : State) (item : Sub) : M State :=
+  if isHourly item then do
+    let p ← orPanic (s.payouts.get item.id) "payout for subscription does not exist"
+    let s := { s with payouts := s.payouts.erase p.id }
+    let s := { s with payForAcc := s.payForAcc.erase (p.addr, p.id) }
+    pure { s with payForNode := s.payForNode.erase (p.node, p.id) }
+  else pure s
+
+def subscriptionStep (delay : Dur) (s : State) (k : Time × Nat) : M State := do
+  let item ← orPanic (s.subs.get k.2) "subscription for inactive at key does not exist"
+  let s1 := { s with subQ := s.subQ.erase (item.inactiveAt, item.id) }
+  if item.status = .StatusActive then do
+    let s2 ← panicIfErr (subscriptionInactivePendingHook s1 item.id)
+    detachPayout (subToPending s2 item delay).1 item true
+  else do
+    let s2 ← refundSub s1 item
+    removePayout (removeSubRecords s2 item) item
 
 def subscriptionEndBlock (s : State) : M State :=
   (dueIds subscription.SubscriptionForInactiveAtKey s.subQ s.time).foldlM (subscriptionStep s.params.subDelay) s
 
 /-- vpn EndBlock (node, session, subscription) and Commit (the params transient store is reset). -/
-def endBlock (s : State) : Except String State := do
-  let s := { s with events := [] }
-  let s ← haltOf (nodeEndBlock s)
-  let s ← haltOf (sessionEndBlock s)
-  let s ← haltOf (subscriptionEndBlock s)
-  pure { s with modified := {} }
+def vpnEndBlock (s : State) : M State := do
+  let s1 ← nodeEndBlock s
+  let s2 ← sessionEndBlock s1
+  subscriptionEndBlock s2
+
+def endBlock (s : State) : Except String State :=
+  match haltOf (vpnEndBlock { s with events := [] }) with
+  | .ok s' => .ok { s' with modified := {} }
+  | .error e => .error e
 
 /-! ### governance: one parameter change (`Subspace.Update`) -/
 
